@@ -359,66 +359,61 @@ Definition store_field (ft : ty) (old x : val) : option val :=
   | Some d => if assignable d ft then Some x else None
   end.
 
+(* a slot of type `any` is (re)used as / replaced by a map[string]any *)
+Definition any_enter (t : ty) (v : val) : val :=
+  match t with
+  | TAny => match v with
+            | VMap true TAny _ => v
+            | _ => VMap true TAny (Some [])
+            end
+  | _ => v
+  end.
+
+(* one pointer level in front of a struct; at the terminal step (last = true) a nil
+   pointer is instantiated first, at an intermediate step it is an error *)
+Definition unwrap (v : val) (last : bool) : option (bool * ty * val) :=
+  match v with
+  | VPtr u (Some w) => Some (true, u, w)
+  | VPtr u None => if last then Some (true, u, zero u) else None
+  | _ => Some (false, TInt, v)
+  end.
+Definition rewrap (isptr : bool) (u : ty) (w : val) : val :=
+  if isptr then VPtr u (Some w) else w.
+
+Definition entry_of (e : ty) (o : option val) : val :=
+  match o with Some w => w | None => new_instance e end.
+Definition field_of (ft : ty) (o : option val) : val :=
+  match o with Some w => w | None => zero ft end.
+
 (* assignOne below the top: [t] is the static type of the slot holding [v].
    The result is the new content of the slot. *)
 Fixpoint assign (env : senv) (t : ty) (v : val) (p : path) (x : val) {struct p} : option val :=
   match p with
   | [] => None  (* not reached *)
   | f :: rest =>
-      (* a slot of type `any` is (re)used as / replaced by a map[string]any *)
-      let v1 := match t with
-                | TAny => match v with
-                          | VMap true TAny o => v
-                          | _ => VMap true TAny (Some [])
-                          end
-                | _ => v
-                end in
-      match v1 with
+      match any_enter t v with
       | VMap ks e o =>
           if negb ks then None else
           match o with
           | None => None                                   (* assignment to entry in nil map *)
           | Some es =>
-              match rest with
-              | [] => match store_map e x with
-                      | Some y => Some (VMap ks e (Some (ains f y es)))
-                      | None => None
-                      end
-              | _ :: _ =>
-                  let entry := match aget f es with Some w => w | None => new_instance e end in
-                  match assign env e entry rest x with
-                  | Some entry' => Some (VMap ks e (Some (ains f entry' es)))
-                  | None => None
-                  end
-              end
+              option_map (fun a => VMap ks e (Some (ains f a es)))
+                (match rest with
+                 | [] => store_map e x
+                 | _ :: _ => assign env e (entry_of e (aget f es)) rest x
+                 end)
           end
-      | _ =>
-          (* one pointer level (terminal step: a nil pointer is instantiated first) *)
-          let wrap_body :=
-            match v1 with
-            | VPtr u (Some w) => Some ((fun w' => VPtr u (Some w')), w)
-            | VPtr u None => match rest with
-                             | [] => Some ((fun w' => VPtr u (Some w')), zero u)
-                             | _ :: _ => None
-                             end
-            | _ => Some ((fun w' => w'), v1)
-            end in
-          match wrap_body with
-          | Some (wrap, VStruct n fs) =>
+      | v1 =>
+          match unwrap v1 (is_nil_path rest) with
+          | Some (isptr, u, VStruct n fs) =>
               match lookup_field env n f with
               | Some (true, ft) =>
-                  let old := match aget f fs with Some w => w | None => zero ft end in
-                  match rest with
-                  | [] => match store_field ft old x with
-                          | Some y => Some (wrap (VStruct n (ains f y fs)))
-                          | None => None
-                          end
-                  | _ :: _ =>
-                      match assign env ft (instantiate old) rest x with
-                      | Some y => Some (wrap (VStruct n (ains f y fs)))
-                      | None => None
-                      end
-                  end
+                  let old := field_of ft (aget f fs) in
+                  option_map (fun a => rewrap isptr u (VStruct n (ains f a fs)))
+                    (match rest with
+                     | [] => store_field ft old x
+                     | _ :: _ => assign env ft (instantiate old) rest x
+                     end)
               | _ => None
               end
           | _ => None
